@@ -209,7 +209,19 @@ pub fn check_case(c: &Case) -> CheckResult {
         let mut ops = vec![];
         let local = w.reps[1].tasks();
         for (ci, e) in &c.edits {
-            let i = ((*ci as usize) * cells.len()) >> 16;
+            // every other edit is aimed at a cell that is going to be purged (deleted status
+            // with an old, zero or negative modification time)
+            let expirable: Vec<usize> = cells
+                .iter()
+                .enumerate()
+                .filter(|(_, (s, m))| STATUSES[*s] == Some("deleted") && matches!(m, Modified::Older(_) | Modified::Zero | Modified::Negative(_)))
+                .map(|(i, _)| i)
+                .collect();
+            let i = if ci & 1 == 1 && !expirable.is_empty() {
+                expirable[((*ci as usize) * expirable.len()) >> 16]
+            } else {
+                ((*ci as usize) * cells.len()) >> 16
+            };
             let uuid = cell_uuid(i);
             if edited.contains_key(&uuid) {
                 continue;
